@@ -226,6 +226,10 @@ unsafe fn write_item(kind: Kind, c: usize, p: usize, id: u32) {
 /// move `k` items between the guest buffer of channel `c` (at offset `progress`) and the peer;
 /// emits `xf<c>:<ids…>`
 fn transfer(c: usize, k: usize) {
+    transfer_as(c, k, "xf")
+}
+
+fn transfer_as(c: usize, k: usize, tok: &str) {
     let (kind, gw, ptr, progress, first) = with_chan(c, |x| (x.kind, x.guest_writes, x.ptr, x.progress, x.next_item));
     let mut ids = Vec::new();
     let mut flag = "";
@@ -259,7 +263,7 @@ fn transfer(c: usize, k: usize) {
             x.next_item += k as u32;
         }
     });
-    let mut t = format!("xf{c}");
+    let mut t = format!("{tok}{c}");
     for id in &ids {
         t.push_str(&format!(":{id}"));
     }
@@ -427,7 +431,7 @@ pub fn cancel(h: u32, write: bool, fut: bool) -> u32 {
                     }
                 };
                 if k > 0 {
-                    transfer(c, k);
+                    transfer_as(c, k, "xfr");
                 }
                 if fut && !write && base == COMPLETED {
                     with_chan(c, |y| y.peer_wrote = true);
